@@ -50,13 +50,24 @@ WITNESSES = {
     ]),
 }
 
+WITNESSES['silenced_flags_do_not_outlive_the_command'] = (2, [
+    # regression scenario (no defect on the current tree): a silenced (uid, flags) pair must be
+    # forgotten after the fork, or the same value set later by another session is swallowed
+    ('cmd', 1, ('select', 1, False)), ('cmd', 1, LEARN),
+    ('cmd', 2, ('select', 1, False)), ('cmd', 2, LEARN),
+    ('cmd', 1, ('store', [3], False, 'add', [5], True)),
+    ('cmd', 2, ('store', [3], False, 'delete', [5], False)),
+    ('cmd', 1, ('noop',)),
+    ('cmd', 2, ('store', [3], False, 'add', [5], False)),
+])
+
 WEIGHTS = {'store': 24, 'expunge': 14, 'uidexpunge': 6, 'move': 10, 'copy': 4, 'append': 8,
            'fetch': 8, 'search': 3, 'noop': 6, 'check': 2, 'touch': 1, 'close': 1, 'idle': 2,
            'select': 2, 'deliver': 2}
 
 
 def section_random(ctx, clauses) -> None:
-    n = ctx.scale(120, 3000)
+    n = ctx.scale(120, 800)
     traces = []
     hist: dict = {}
     checkpoints = compared = 0
@@ -66,7 +77,8 @@ def section_random(ctx, clauses) -> None:
         prof = dict(nsess=nsess, nsteps=rng.randint(8, 25),
                     boxes=(1,) if rng.random() < 0.75 else (1, 2),
                     readonly_sessions=(3,) if rng.random() < 0.3 else (),
-                    checkpoint_every=rng.choice([2, 3, 5]), weights=WEIGHTS)
+                    checkpoint_every=rng.choice([2, 3, 5]), weights=WEIGHTS,
+                    flipflop=rng.choice([0.0, 0.4, 0.7]))
         trace, mon = SC.run_sync(SC.monitored_random_trace(rng, **prof))
         checkpoints += mon.n_checkpoints
         compared += mon.n_compared
@@ -100,6 +112,7 @@ def run(ctx) -> None:
     evals = [base.section_witnesses(ctx, clauses, WITNESSES),
              section_random(ctx, clauses),
              base.section_exhaustive(ctx, clauses)]
+    base.section_maildir(ctx, clauses)
     for ev in evals:
         ev.finish()
 
